@@ -457,6 +457,22 @@ func (fr *Frame) execNext(in *ssa.Next) {
 	if in.IsString {
 		k := sc.FreshConst("next.i", SInt)
 		v := sc.FreshConst("next.r", SInt)
+		if key, tracked := fr.strPos[rng]; tracked {
+			if pos, have := fr.st.ghost[key]; have {
+				// the loop is at byte position pos: a byte below 0x80 is its own rune of width one; anything else decodes
+				// to a rune of at least 0x80 (U+FFFD for invalid input) that is one to four bytes wide
+				ln := app(SInt, "str.len", x)
+				b := app(SInt, "str.to_code", app(SString, "str.at", x, pos))
+				w := sc.FreshConst("next.w", SInt)
+				fr.assume(Eq(ok, Lt(pos, ln)))
+				fr.assume(Implies(ok, And(Eq(k, pos), Le(IntLit(1), w), Le(w, IntLit(4)), Le(Add(pos, w), ln),
+					Implies(Lt(b, IntLit(128)), And(Eq(v, b), Eq(w, IntLit(1)))),
+					Implies(Le(IntLit(128), b), And(Le(IntLit(128), v), Le(v, IntLit(1114111)))))))
+				fr.st.ghost[key] = fr.define("strpos", Ite(ok, Add(pos, w), pos))
+				fr.env[in] = Val{Tuple: []Val{TV(ok), TV(k), TV(v)}}
+				return
+			}
+		}
 		fr.assume(Implies(ok, And(Le(IntLit(0), k), Lt(k, app(SInt, "str.len", x)))))
 		fr.env[in] = Val{Tuple: []Val{TV(ok), TV(k), TV(v)}}
 		return
